@@ -20,7 +20,9 @@ EXTENDS Integers, Sequences, FiniteSets, TLC, VF
 CONSTANTS MaxBlocks, MaxInv,
           TxU,       \* Seq of [ins : Seq([op, seq]), outs : Seq([v, cls]), ver, lock]
           Lists,     \* allowed block contents: a set of sequences of tx ids
-          CbModes,   \* subset of {"zero", "max", "over"}: coinbase claims nothing / exactly subsidy+fees / one satoshi more
+          CbModes,   \* subset of {"zero", "max", "over", "dup"}: coinbase claims nothing / exactly subsidy+fees / one satoshi more /
+                     \* "dup": a coinbase without the block height, byte-identical in every such block (constructible only while BIP34
+                     \* is inactive): all of them create the same outpoint <<-99, 1>> - the BIP30 situation
           Dts,       \* allowed differences between a block's time and its parent's
           H0,        \* height of the base tip
           BaseDt,    \* spacing of the base chain's block times (seconds)
@@ -79,6 +81,8 @@ RECURSIVE OrdB(_, _)
 OrdB(B, T) == IF T = {} THEN <<>>
               ELSE LET lo == CHOOSE x \in T : \A y \in T : HeightB(B, x) <= HeightB(B, y) IN <<lo>> \o OrdB(B, T \ {lo})
 CbOp(b) == <<0 - b, 1>>
+DupOp == <<-99, 1>>
+CbOpB(B, b) == IF B[b].cb = "dup" THEN DupOp ELSE CbOp(b)
 
 \* ------------------------------------------------------------------ coins
 \* a view is a function outpoint -> [v, h, cb]
@@ -134,15 +138,15 @@ ConnTxs(B, b, txs, V, spent, fees) ==
 ConnectB(B, b, V) ==
   LET txs == B[b].txs
       \* BIP30: no output of the block may already exist unspent (evaluated before anything is connected)
-      bip30 == \E i \in 1..Len(txs) : OutsOf(txs[i]) \cap DOMAIN V # {}
+      bip30 == (\E i \in 1..Len(txs) : OutsOf(txs[i]) \cap DOMAIN V # {}) \/ (B[b].cb = "dup" /\ DupOp \in DOMAIN V)
       r == ConnTxs(B, b, txs, V, <<>>, 0)
-      cbval == CASE B[b].cb = "zero" -> VZ
+      cbval == CASE B[b].cb \in {"zero", "dup"} -> VZ
                  [] B[b].cb = "max" -> [k |-> 1, s |-> r.fees]
                  [] OTHER -> [k |-> 1, s |-> r.fees + 1]
   IN IF bip30 THEN [ok |-> FALSE, why |-> "bad-txns-BIP30", view |-> V, spent |-> <<>>, fees |-> 0]
      ELSE IF ~r.ok THEN r
      ELSE IF ~VLe(cbval, [k |-> 1, s |-> r.fees]) THEN [r EXCEPT !.ok = FALSE, !.why = "bad-cb-amount"]
-     ELSE [r EXCEPT !.view = r.view @@ [o \in {CbOp(b)} |-> Coin(cbval, HeightB(B, b), TRUE)]]
+     ELSE [r EXCEPT !.view = r.view @@ [o \in {CbOpB(B, b)} |-> Coin(cbval, HeightB(B, b), TRUE)]]
 
 \* DisconnectBlock: transactions in reverse order, each removing its outputs and restoring what it spent from undo
 RECURSIVE UndoTxs(_, _, _)
@@ -150,7 +154,7 @@ UndoTxs(txs, und, V) ==
   IF txs = <<>> THEN V
   ELSE LET k == Len(txs) t == txs[k] IN
        UndoTxs(SubSeq(txs, 1, k - 1), SubSeq(und, 1, k - 1), Without(V, OutsOf(t)) @@ und[k])
-DisconnectB(B, b, und, V) == UndoTxs(B[b].txs, und, Without(V, {CbOp(b)}))
+DisconnectB(B, b, und, V) == UndoTxs(B[b].txs, und, Without(V, {CbOpB(B, b)}))
 
 \* from-scratch UTXO set of the chain ending at b, and validity of that chain by the rules above
 RECURSIVE ReplayB(_, _)
